@@ -61,7 +61,20 @@ impl StatSlot for ConcurrencyStatSlot {
                 let metric = tc.metric();
                 match metric.concurrency_counter.get(&arg) {
                     Some(counter) => {
-                        counter.fetch_sub(1, Ordering::SeqCst);
+                        // never below zero: an entry admitted before this rule was loaded was not
+                        // counted when it entered, so its exit must not wrap the counter around
+                        let mut cur = counter.load(Ordering::SeqCst);
+                        while cur > 0 {
+                            match counter.compare_exchange(
+                                cur,
+                                cur - 1,
+                                Ordering::SeqCst,
+                                Ordering::SeqCst,
+                            ) {
+                                Ok(_) => break,
+                                Err(now) => cur = now,
+                            }
+                        }
                     }
                     None => {
                         logging::debug!("[ConcurrencyStatSlot on_entry_passed] Parameter does not exist in ConcurrencyCounter., argument: {:?}", arg);
